@@ -44,6 +44,30 @@ package fptower
 //@ modifies arg0
 //@ end
 
+//@ func mulAdxE2
+//@ tags default
+//@ assumed assembly (e2_amd64.s): the schoolbook product in Fp[u]/(u^2 - (-1)), as proved for the portable E2.Mul; run against this contract under C09 (bounded)
+//@ layer ring fp.Element
+//@ ensures[value] vec(arg0) == qmul((-1), old(vec(arg1)), old(vec(arg2)))
+//@ modifies arg0
+//@ end
+
+//@ func squareAdxE2
+//@ tags default
+//@ assumed assembly (e2_amd64.s): the square in Fp[u]/(u^2 - (-1)), as proved for the portable E2.Square; run against this contract under C09 (bounded)
+//@ layer ring fp.Element
+//@ ensures[value] vec(arg0) == qsq((-1), old(vec(arg1)))
+//@ modifies arg0
+//@ end
+
+//@ func mulNonResE2
+//@ tags default
+//@ assumed assembly (e2_amd64.s): multiplication by the sextic non-residue (1, 1), as proved for the portable E2.MulByNonResidue; run against this contract under C09 (bounded)
+//@ layer ring fp.Element
+//@ ensures[value] vec(arg0) == qmul((-1), svec(2, 0, 1, 1, 1), old(vec(arg1)))
+//@ modifies arg0
+//@ end
+
 //@ func mulGenericE2
 //@ layer ring fp.Element
 //@ ensures[value] vec(z) == qmul((-1), old(vec(x)), old(vec(y)))
